@@ -219,7 +219,7 @@ def gen_address(rng, cfg, is_rcpt):
     """-> (semantic address, wire argument behind FROM:/TO:, tags)"""
     tags = []
     r = rng.random()
-    if r < (0.04 if is_rcpt else 0.10):
+    if not is_rcpt and r < 0.10:       # the null reverse-path; RCPT TO:<> is not in the grammar
         tags.append("null-path")
         return b"", b"<>" + rng.choice([b"", b"", b" SIZE=0"]), tags
     r = rng.random()
@@ -279,6 +279,7 @@ def gen_address(rng, cfg, is_rcpt):
         path = rng.choice([b"@relay.example:", b"@r1.example,@r2.example:", b"@a.test:", b"@[10.9.8.7]:"]) + path
     wire = b"<" + path + b">"
     if form == "params":
+        tags.append("esmtp-params")
         wire += rng.choice([b" SIZE=100", b" BODY=8BITMIME", b" SIZE=1 BODY=7BIT", b" X-EXT"])
     if form == "space":
         tags.append("space-after-colon")
@@ -330,7 +331,7 @@ def gen_command(rng, cfg, verb):
         line = _case(rng, verb.encode()) + b" " + _case(rng, b"from:" if verb == "mail" else b"to:") + arg
         return GenCmd(verb, line, eol, addr, tags)
     if verb in ("helo", "ehlo"):
-        return GenCmd(verb, _case(rng, verb.encode()) + rng.choice([b" client.test", b" [192.0.2.9]", b""]), eol)
+        return GenCmd(verb, _case(rng, verb.encode()) + rng.choice([b" client.test", b" [192.0.2.9]", b" Client.Test"]), eol)
     if verb == "vrfy":
         return GenCmd(verb, _case(rng, b"vrfy") + b" postmaster", eol)
     if verb in ("noop", "help"):
@@ -468,9 +469,6 @@ def run_session(b, home, rec, cfg, cmds, groups, res, ident, attempt=0):
     if stray:
         res.violate("C08/session/submission-without-data", "%d queue invocations not explained by a DATA command" % len(stray), wit())
         return True
-    if model.closed and rc != 0:
-        res.violate("C08/quit/exit-status", "exit status %s after QUIT" % rc, wit())
-        return True
     return True
 
 
@@ -607,7 +605,7 @@ def plan(tier):
     if tier == "quick":
         ex = [("small", None, 4), ("small", b"@relay.test", 4), ("full", None, 3)]
         return ex, core.scaled(500), 10
-    ex = [("small", None, 6), ("small", b"@relay.test", 5), ("small", b"", 4), ("full", None, 4), ("full", b"@relay.test", 4)]
+    ex = [("small", None, 5), ("small", b"@relay.test", 5), ("small", b"", 4), ("full", None, 4), ("full", b"@relay.test", 4)]
     return ex, core.scaled(6000), 16
 
 
@@ -647,7 +645,7 @@ def main(tier):
         "classes (2xx / 3xx / 4xx-or-5xx) are compared, plus the exact envelope of every completed DATA",
         "freedoms the documents leave (model accepts either): address length between 801 and 1099 bytes (not generated); a refused "
         "MAIL may or may not discard an open transaction; badmailfrom local parts differing only in case; localiphost rewriting of "
-        "*sender* addresses and of 0.0.0.0",
+        "*sender* addresses and of 0.0.0.0; VRFY/HELP positive or negative; MAIL/RCPT with ESMTP parameters may also be refused",
         "generated arguments stay inside the grammar parse_line() accepts (checked for every command: generator and parser must agree)",
         "local IP addresses = addresses of this host on which bind() succeeds"])
 
